@@ -15,7 +15,7 @@ fn main() {
     // the stream a thread gets when it is the only one creating nodes (fresh thread, nothing concurrent)
     let solo = thread::spawn(move || script_caught(1, k, None)).join().unwrap().0;
     // with more than 3 threads: every thread creates its first node before any creates its second
-    let o = run_full(threads, k, false, false, 0, threads > 3);
+    let o = run_gift(threads, k, false, false, 0, threads > 3, true);
     println!("SOLO {:?}", solo.prios);
     println!("OUTCOME {}", outcome_json(&o));
     match check_results(&o, k, &solo.tie_shape) {
